@@ -520,6 +520,30 @@ func (o *c09Oracle) after(ch *chain, ci *callInfo) *Violation {
 			o.refused++
 		}
 	case "end":
+		// "from the validator-set update following its jailing": whatever else is wrong with a batch, it must carry a
+		// zero-power entry for every jailed validator Tendermint still has (judged on the batch itself, so that it
+		// does not depend on the batch being applicable as a whole)
+		if !o.stopped && ch.setBeforeEnd != nil {
+			had := ch.setBeforeEnd.byAddr()
+			zeroed := map[string]bool{}
+			for _, u := range ci.End.ValidatorUpdates {
+				if u.Power == 0 {
+					if tv, ok := ch.setBeforeEnd[hex.EncodeToString(u.PubKey.Data)]; ok {
+						zeroed[tv.Addr] = true
+					}
+				}
+			}
+			var jailedAddrs []string
+			for a := range o.jailedModel {
+				jailedAddrs = append(jailedAddrs, a)
+			}
+			sort.Strings(jailedAddrs)
+			for _, a := range jailedAddrs {
+				if p, in := had[a]; in && !zeroed[a] && !ch.emptied {
+					return violf("C09/jailed-validator-keeps-power", "%s: validator %s is jailed and Tendermint holds it with power %d, but this block's update batch %s has no zero-power entry for it", where, a, p, fmtUpdates(ci.End.ValidatorUpdates))
+				}
+			}
+		}
 		if o.stopped || ch.applyErr != "" {
 			o.stopped = true // C05's subject; the mirror is no longer meaningful
 			return nil
